@@ -577,7 +577,7 @@ class Protocol:
             flush-pkt.
         """
         pkt = self.read_pkt_line()
-        while pkt:
+        while pkt is not None:
             yield pkt
             pkt = self.read_pkt_line()
 
